@@ -67,6 +67,7 @@ type histEnv struct {
 	seen                map[string]int
 	mu                  sync.Mutex
 	onPrim              func(rec CallRec)
+	loc                 string                    // nested layering: the cleaned backup location
 	newBFS              func() *backupfs.BackupFS // how the instance under test is constructed (also after a reload)
 	fired               bool                      // the injected fault has fired (reset by the caller per step)
 	apiActive           int32                     // >0 while a BackupFS method call is in progress (conc stream)
@@ -133,6 +134,7 @@ func newHistEnv(c *HistCase) (*histEnv, error) {
 	switch c.Layering {
 	case "nested":
 		e.baseSub, e.bakSub = "/n", "/n"+path.Clean(c.Loc)
+		e.loc = path.Clean(c.Loc)
 		if err := rc.Build("/n", c.Tree); err != nil {
 			rc.Close()
 			return nil, err
@@ -412,11 +414,27 @@ func (e *histEnv) labelsBefore(op Op) []string {
 			}
 		}
 	}
+	if op.K == "removeall" && e.loc != "" && strings.HasPrefix(op.A[0], "/") {
+		// BackupFS re-implements RemoveAll as walk + Remove of every entry: the last Remove hits the
+		// directory that still holds the hidden backup location (ENOTEMPTY), where HiddenFS.RemoveAll
+		// spares it and returns nil
+		if a := path.Clean(op.A[0]); a == "/" || strings.HasPrefix(e.loc, a+"/") {
+			add("removeall-above-location")
+		}
+	}
 	switch op.K {
 	case "rename":
 		if fi := lst(op.A[0]); fi != nil && fi.IsDir() {
 			if es, _ := os.ReadDir(real(op.A[0])); len(es) > 0 {
 				add("rename-nonempty-dir")
+			}
+			// two different spellings of ONE directory (through a symlinked parent): os.Rename sees
+			// different strings denoting the same file and does nothing; BackupFS resolves both to
+			// the same string first, and os.Rename(p, p) of a directory is EEXIST
+			if path.Clean("/"+op.A[0]) != path.Clean("/"+op.A[1]) {
+				if f2 := lst(op.A[1]); f2 != nil && os.SameFile(fi, f2) {
+					add("rename-dir-onto-alias")
+				}
 			}
 		}
 		if fi := lst(op.A[1]); fi != nil && fi.IsDir() {
@@ -555,7 +573,7 @@ func treeLabels(tree []Entry) []string {
 	return ls
 }
 
-var labelPriority = []string{"relative-name", "through-final-symlink", "rename-nonempty-dir", "link-over-tracked", "dangling-link-parent", "link-topology", "escaping-link", "unclean-link-target", "rename-onto-dir", "new-link-topology"}
+var labelPriority = []string{"relative-name", "through-final-symlink", "rename-nonempty-dir", "link-over-tracked", "dangling-link-parent", "rename-dir-onto-alias", "removeall-above-location", "link-topology", "escaping-link", "unclean-link-target", "rename-onto-dir", "new-link-topology"}
 
 func knownClass(labels map[string]bool) string {
 	for _, l := range labelPriority {
@@ -645,12 +663,38 @@ func runHistCase(c *HistCase, prop string) (*caseOut, error) {
 	}
 	// C03: a twin of the base tree driven directly through PrefixFS(OSFS)
 	var twin backupfs.FS
-	if prop == "C03" && c.Layering != "nested" {
+	dropLoc := func(d []string) []string { return d }
+	if prop == "C03" {
 		if err := e.rc.Build("/t/twin", c.Tree); err != nil {
 			return nil, err
 		}
 		e.rc.MarkStart()
-		twin, _ = backupfs.NewPrefixFS(backupfs.NewOSFS(), e.rc.Root+"/t/twin")
+		tp, _ := backupfs.NewPrefixFS(backupfs.NewOSFS(), e.rc.Root+"/t/twin")
+		twin = tp
+		if c.Layering == "nested" {
+			// the base of the BackupFS is HiddenFS(location) over the tree: so is the twin; what lies
+			// below the location (the copies BackupFS makes) is not part of the comparison
+			spell := c.LocSpell
+			if spell == "" {
+				spell = c.Loc
+			}
+			h, herr := backupfs.NewHiddenFS(tp, spell)
+			if herr != nil {
+				return nil, herr
+			}
+			twin = h
+			loc := path.Clean(c.Loc)
+			dropLoc = func(d []string) []string {
+				var out []string
+				for i := 0; i+6 < len(d); i += 7 {
+					if strings.HasPrefix(d[i], loc+"/") {
+						continue
+					}
+					out = append(out, d[i:i+7]...)
+				}
+				return out
+			}
+		}
 	}
 	// the twin-tree oracle judges one step at a time: a divergence is attributed to a recorded class
 	// only if the tree or this very operation falls into it; once the trees have diverged the
@@ -748,16 +792,17 @@ func runHistCase(c *HistCase, prop string) (*caseOut, error) {
 					stepLabels[l] = true
 				}
 				viol := violStep
-				if op.K == "removeall" && okB && !okT && tres[1] == "notDir" {
+				if op.K == "removeall" && okB && !okT && (tres[1] == "notDir" || tres[1] == "hiddenNotExist") {
 					// adopted reading (DESIGN C03): "RemoveAll of a path that does not exist succeeds"
-					// covers every path name resolution cannot reach (ENOENT and ENOTDIR)
+					// covers every path name resolution cannot reach (ENOENT, ENOTDIR, and — in the nested
+					// layering — the hidden location, which the base reports as ErrNotExist)
 					out.count("c03.removeall-enotdir-reading")
 				} else if okB != okT {
 					viol("C03", fmt.Sprintf("%v: through BackupFS %v, directly %v", op, res, tres))
 				} else if okB && isReadOnly(op) && strings.Join(res, "\x00") != strings.Join(tres, "\x00") {
 					viol("C03", fmt.Sprintf("%v returned %.200q through BackupFS and %.200q directly", op, res, tres))
 				}
-				bt, tt := blankDirTimes(e.rc.Dump(e.baseSub)), blankDirTimes(e.rc.Dump("/t/twin"))
+				bt, tt := dropLoc(blankDirTimes(e.rc.Dump(e.baseSub))), dropLoc(blankDirTimes(e.rc.Dump("/t/twin")))
 				if !dumpEqual(bt, tt) {
 					viol("C03", fmt.Sprintf("after %v the base tree differs from the directly driven twin: %s", op, dumpDiff(tt, bt)))
 				}
@@ -1364,6 +1409,9 @@ func histGenFor(prop string, r *RNG) HistGen {
 	case "C03":
 		g.NoRollback = true
 		g.NSteps = 10
+		if r.Chance(1, 6) {
+			g.Layering = "nested"
+		}
 	case "C13":
 		g.Ext = true
 	case "C16":
